@@ -41,6 +41,7 @@ def replay(cases_path, out_path):
     cases = json.load(open(cases_path))
     res = reserved()
     fails, per, executed, skipped = [], {}, 0, {}
+    spelled = set()
 
     def fail(clause, c, obs, exp, **extra):
         per[clause] = per.get(clause, 0) + 1
@@ -115,6 +116,43 @@ def replay(cases_path, out_path):
                     fail("agg_names", c, got, exp2, method=method, names=names)
                 if len(set(got)) != len(got):
                     fail("agg_names_distinct", c, got, "pairwise distinct", method=method)
+            # the output names depend on the columns' STORED names, not on how the caller spelled the column:
+            # by vector, by stored name, by lower / upper case, by sanitised accessor, by positional accessor
+            from serif.naming import _sanitize_user_name
+
+            def spellings(i, nm):
+                cands = [nm, nm.lower(), nm.upper(), _sanitize_user_name(nm)] if nm is not None else []
+                cands.append("col%d_" % (i + 1))
+                out = []
+                for cand in cands:
+                    if not cand or cand in out:
+                        continue
+                    try:
+                        if t[cand] is cols[i]:
+                            out.append(cand)
+                    except Exception:      # noqa: BLE001
+                        pass
+                return out
+            if (k, a) in spelled:
+                continue
+            spelled.add((k, a))
+            for method in ("aggregate", "window"):
+                try:
+                    ref = getattr(t, method)(over=cols[0], sum_over=cols[1]).column_names()
+                except Exception:      # noqa: BLE001
+                    continue
+                for ks in [cols[0]] + spellings(0, k):
+                    for vs in [cols[1]] + spellings(1, a):
+                        if ks is cols[0] and vs is cols[1]:
+                            continue
+                        executed += 1
+                        try:
+                            got = getattr(t, method)(over=ks, sum_over=vs).column_names()
+                        except Exception as ex:       # noqa: BLE001
+                            got = "raised " + type(ex).__name__ + ": " + str(ex)[:60]
+                        if got != ref:
+                            fail("agg_names", c, got, ref, method=method, names=names,
+                                 key_spelled=ks if isinstance(ks, str) else "<vector>", value_spelled=vs if isinstance(vs, str) else "<vector>")
             continue
         # ---- accessors
         w = len(names)
